@@ -52,7 +52,14 @@ pub fn run(tier: &str, seed: u64) -> Sink {
         let body = &bs[i];
         let mut sink = Sink::default();
         let mut stats = [0usize; 6]; // programs, parsed, formatted, strict_wf, dec52_some, undefined
-        for (vi, v) in syntaxes.iter().enumerate() {
+        // the longest bodies (thorough tier) are run in the two principal modes only: four modes x 371 293
+        // bodies x 2 delimiters x 4 quote styles is 51 million requests and 21 GB of runner memory
+        let long_body = body.chars().count() >= 5;
+        if long_body && i % 3 != 0 {
+            // every third of the longest bodies (deterministic): keeps the thorough tier near 5 GB / 2 minutes
+            return (sink, stats);
+        }
+        for (vi, v) in syntaxes.iter().enumerate().filter(|(vi, _)| !long_body || *vi < 2) {
             let (v52, zf) = match v {
                 LuaVersion::Lua51 => (false, false),
                 LuaVersion::LuaJIT => (false, true),
